@@ -38,10 +38,31 @@ def runSugar (j : Json) : Except String Json := do
   return obj [("x", ofStr x), ("xa", ofStr xa),
     ("x_dec", ofStr (decodeRefs x)), ("xa_dec", ofStr (decodeRefs xa))]
 
+/-- several renderings on ONE generator, possibly through held Tag objects -/
+def runSeq (j : Json) : Except String Json := do
+  let T := Tables.current
+  match Gen.init T (← cfld j "markup") (← parsePairs parseCVal (← fld j "settings")) with
+  | .error e => return obj [("init_err", Json.str e.name), ("outs", Json.arr #[])]
+  | .ok g0 =>
+    let mut g := g0
+    let mut outs : Array Json := #[]
+    for c in (← afld j "calls") do
+      let tag0 ← cfld c "tag"
+      let tag := if (← sfld c "via") == "tag" then asciiLower tag0 else tag0
+      let bind ← parseBind (← fld c "bind")
+      let kwargs ← parsePairs parseVal (← fld c "kwargs")
+      let (res, g') := g.renderHow T attrChain voidElements staticAttributeOrder (← parseHow c) tag bind kwargs
+      g := g'
+      match res with
+      | .ok (s, ct) => outs := outs.push (obj [("out", ofStr s), ("contents", ofOpt ofStr ct), ("err", Json.null)])
+      | .error e => outs := outs.push (obj [("out", Json.null), ("contents", Json.null), ("err", Json.str e.name)])
+    return obj [("init_err", Json.null), ("outs", Json.arr outs)]
+
 def run (j : Json) : Except String Json := do
   match (← sfld j "k") with
   | "tag" => runTag j
   | "sugar" => runSugar j
+  | "seq" => runSeq j
   | k => throw s!"unknown case kind {k}"
 
 end Flatland.Run.C11
